@@ -445,6 +445,13 @@ class App:
             w.log('lerru', 0)               # reported to the caller of send_packet (queue full): no comm thread involved
             return
         w.log('lerr', 0)
+        try:
+            self._link_error(w)
+        finally:
+            if w.kind == 'usb':
+                _park('cb.end', self, 0.0)  # the application's callback takes its time before the read loop goes on
+
+    def _link_error(self, w):
         if not w.sc.get('cb') or self.busy._locked:
             return
         self.busy._locked = True            # no yield point between the report and the decision
@@ -1010,6 +1017,24 @@ def replay_behaviour(job):
                         return
                     grant(rec)
 
+            def usb_rec():
+                th = getattr(w.drv, '_thread', None)
+                return getattr(th, '_vs_rec', None)
+
+            def nev(e):
+                return sum(1 for x in w.ev if x['e'] == e)
+
+            def drain_join(limit=400):
+                """The application waits in join(): the comm thread it waits for runs to its end."""
+                for _ in range(limit):
+                    k = kind_of(u)
+                    if k != 'thread.join' or u.pending.ready():
+                        return
+                    rec = getattr(u.pending.obj, '_vs_rec', None)
+                    if rec is None or rec.finished or rec.pending is None:
+                        return
+                    grant(rec)
+
             def start_op(op):
                 todo.append(op)
                 if kind_of(u) != 'api.idle':
@@ -1040,6 +1065,9 @@ def replay_behaviour(job):
                             user_to(('dev.write', 'api.end'))
                     elif name in ('ConnE', 'SendE', 'CloseE'):
                         k = user_to(('api.end',))
+                        if k == 'blocked:thread.join' and name == 'CloseE':
+                            drain_join()
+                            k = user_to(('api.end',))
                         if k is not None and k.startswith('blocked:queue.put') and name == 'SendE':
                             grant(u)             # the 2 s are over: queue.Full
                             k = user_to(('api.end',))
@@ -1076,22 +1104,27 @@ def replay_behaviour(job):
                         if ok:
                             grant(radio_rec())
                             radio_settle()
-                    elif name == 'TErr':
-                        recs = [r for r in comm_recs() if r.name.startswith('_UsbReceiveThread')]
-                        n0 = sum(1 for e in w.ev if e['e'] == 'lerr')
-                        ok = bool(recs)
+                    elif name == 'TRead':
+                        rec = usb_rec()
+                        n0 = nev('rd')
+                        ok = rec is not None and not rec.finished and kind_of(rec) in ('thread.begin', 'dev.read', 'cb.end')
                         if ok:
-                            rec = recs[-1]
                             for _ in range(50):
-                                if rec.finished or sum(1 for e in w.ev if e['e'] == 'lerr') > n0:
+                                if rec.finished or (nev('rd') > n0 and kind_of(rec) == 'dev.read'):
                                     break
                                 grant(rec)
-                            # through the callback (and its close()) until the thread waits for the device again
-                            for _ in range(100):
-                                if rec.finished or kind_of(rec) == 'dev.read':
+                            ok = nev('rd') == n0 + 1 and kind_of(rec) == 'dev.read'
+                    elif name == 'TErr':
+                        rec = usb_rec()
+                        n0 = nev('lerr')
+                        ok = rec is not None and not rec.finished and kind_of(rec) == 'dev.read'
+                        if ok:
+                            # the read fails; through the callback (and its close()) up to the callback's end
+                            for _ in range(200):
+                                if rec.finished or (nev('lerr') > n0 and kind_of(rec) == 'cb.end'):
                                     break
                                 grant(rec)
-                            ok = sum(1 for e in w.ev if e['e'] == 'lerr') == n0 + 1
+                            ok = nev('lerr') == n0 + 1
                     elif name in ('CbCloseB', 'CbCloseE'):
                         pass                     # done inside the comm thread's step that reported the error
                     else:
